@@ -312,7 +312,12 @@ def _merge(acc, r):
 def _worker_main(wid, task_q, result_q):
     """one worker process: takes (task id, job) from the queue, says which one it started, returns the result"""
     while True:
-        item = task_q.get()
+        try:
+            item = task_q.get()
+        except (MemoryError, EOFError, OSError):
+            # this process can no longer take work (out of address space, or the queue stream was
+            # damaged by a reader that died half way through a message): leave, the parent replaces it
+            os._exit(70)
         if item is None:
             return
         tid, job = item
@@ -324,6 +329,15 @@ def _worker_main(wid, task_q, result_q):
             r["fatal"] = "".join(traceback.format_exception(type(e), e, e.__traceback__))[-3000:]
             r["job"] = {"name": job.get("name"), "module": job["module"], "func": job["func"], "params": job.get("params", {})}
         result_q.put(("done", wid, tid, r))
+        try:
+            import resource
+
+            # z3's term tables and the interpreter's arenas only ever grow over many thousands of paths:
+            # a worker that has become big retires (the parent starts a fresh one in its place)
+            if resource.getrusage(resource.RUSAGE_SELF).ru_maxrss > int(os.environ.get("VERIF_WORKER_RETIRE_MB", "1500")) * 1024:
+                return
+        except Exception:  # noqa: BLE001
+            pass
 
 
 def run_jobs(jobs, nproc=None, progress=None, budget_s=None, slice_s=None):
@@ -404,11 +418,22 @@ def run_jobs(jobs, nproc=None, progress=None, budget_s=None, slice_s=None):
             jj["_slice"] = slice_s or 60.0
         submit(i, jj)
     workers = {wid: spawn(wid) for wid in range(nproc)}
+    last_news = time.time()
     try:
         while tasks:
             try:
                 kind, wid, tid, r = result_q.get(timeout=1.0)
+                last_news = time.time()
+            except (EOFError, OSError, MemoryError):
+                continue
             except _queue.Empty:
+                if share and time.time() > deadline + 90 and time.time() - last_news > 90 and not running:
+                    # past the budget, nothing running, nothing reported for a while: whatever is still
+                    # on the books was lost with a worker that died while fetching it
+                    for tid in list(tasks):
+                        i, _jj = tasks.pop(tid)
+                        finish_slice(i, crashed(i, "a slice of this job was lost with a worker that died while fetching it"))
+                    break
                 # anybody dead?
                 for wid, p in list(workers.items()):
                     if not p.is_alive():
